@@ -3,7 +3,7 @@
 (* values and 3 keywords using *seq and **map, and the theorem that Flatten preserves the  *)
 (* positional count and the multiset of keywords.                                          *)
 EXTENDS PyBind, TLC
-Names == {"a", "b", "c", "d", "e", "g", "zz", "trigger_type"}
+Names == {"a", "value", "context", "d", "qos", "g", "zz", "trigger_type"}
 SetToSeq(S) == LET RECURSIVE F(_)
                    F(T) == IF T = {} THEN <<>> ELSE LET x == CHOOSE y \in T : TRUE IN <<x>> \o F(T \ {x})
                IN F(S)
